@@ -44,11 +44,17 @@ let pool_case toks impl_line =
   | [] -> ("?", "oracle=badcase")
 
 (* ---- accept loop / server scenarios ---- *)
-type ctok = Cmd of cmd | ErrThenConnect of int
+type ctok = Cmd of cmd | ErrThenConnect of int | Burst of int * int
 let parse_cmd (t : string) : ctok =
   if t = "c" then Cmd KConnect
   else if t = "r" then Cmd KRevoke
   else match strip_prefix "e" t with Some k -> Cmd (KEnd (nat (num_of k))) | None ->
+  match strip_prefix "b" t with
+  | Some r -> (match String.split_on_char ':' r with
+      | [k; j] -> Burst (int_of_string k, int_of_string j)
+      | [k] -> Burst (int_of_string k, 2)
+      | _ -> failwith ("bad burst " ^ t))
+  | None ->
   match strip_prefix "q" t with Some k -> Cmd (KRequest (nat (num_of k))) | None ->
   match strip_prefix "l" t with Some k -> Cmd (KRelease (nat (num_of k))) | None ->
   match strip_prefix "p" t with Some _ -> Cmd (KErrors O) | None ->       (* half a head: no transition *)
@@ -96,11 +102,15 @@ let scen_case which full toks impl_line =
         | Cmd c -> let m' = do_cmd true full n m c in (m', pr_obs full n m' :: acc)
         | ErrThenConnect e ->
           let m1 = do_cmd true full n m (KErrors (nat e)) in
-          let m' = do_cmd true full n m1 KConnect in (m', pr_obs full n m' :: acc))
+          let m' = do_cmd true full n m1 KConnect in (m', pr_obs full n m' :: acc)
+        | Burst (k, j) ->
+          (* j requests arriving in one read: j KRequest commands, one observation *)
+          let rec go i m = if i = 0 then m else go (i - 1) (do_cmd true full n m (KRequest (nat k))) in
+          let m' = go j m in (m', pr_obs full n m' :: acc))
         (sim_init n, []) cts in
     let (mfin, _) = run_cmds true full n m (recover_cmds n m) in
     let model = Printf.sprintf "%s ; %s ; over=0" (String.concat " " (List.rev obs_rev)) (pr_obs full n mfin) in
-    let cmds = List.map (function Cmd c -> c | ErrThenConnect _ -> KConnect) cts in
+    let cmds = List.map (function Cmd c -> c | ErrThenConnect _ -> KConnect | Burst (k, _) -> KRequest (nat k)) cts in
     let verdict =
       (match split_ws impl_line with
        | "panic" :: _ -> "oracle=fail@panic"
